@@ -22,6 +22,10 @@ VariantMax(enc, v, n, kind) ==
     [] f = "euckr" -> (IF kind = "utf16" THEN L ELSE IF kind = "utf8" THEN L + ((L + 1) \div 2) + 2 ELSE 3 * L)
     [] f = "sjis" -> (IF kind = "utf16" THEN L ELSE 3 * L)
     [] f = "repl" -> (IF kind = "utf16" THEN 1 ELSE 3)
+    [] f = "gb" ->
+         \* extra_from_state = pending count + (pending_ascii ? 1 : 0)
+         (LET x == n + (IF v.st.c # 0 THEN 3 ELSE IF v.st.b # 0 THEN 2 ELSE IF v.st.a # 0 THEN 1 ELSE 0) + (IF v.lead # 0 THEN 1 ELSE 0)
+          IN  IF kind = "utf16" THEN x + 1 ELSE 3 * x + 1)
     [] f = "iso2022jp" ->
          (LET flag == IF v.st.o THEN 1 ELSE 0
               i == n + (IF v.st.a = 0 \/ v.pp THEN 0 ELSE 1) + (IF v.st.s \in {"esc", "escstart"} THEN 1 ELSE 0)
